@@ -14,7 +14,7 @@
      complete s          every timer of s has run or was cancelled
    Only statements here; proofs are in Trie, PitWalk, PitInv, PitSteps, FibInv, Refine, Readable, Final, Refute. *)
 From Coq Require Import List NArith Bool Arith.
-From Engine Require Import Model Spec Refine Readable Final Live Refute.
+From Engine Require Import Model Spec Refine Readable Final Live Refute Keys.
 Import ListNotations.
 
 (* The model's observations are accepted by the spec checker — the same (extracted) checker the runner evaluates on the
@@ -128,6 +128,20 @@ Print Assumptions exactly_once_refuted.
 Theorem handler_lpm_refuted : verdict_of pinned w_detach_child = Some (0%nat, VHandler) /\ verdict_of pinned w_detach_parent = Some (0%nat, VHandler).
 Proof. exact handler_lpm_refuted_pinned. Qed.
 Print Assumptions handler_lpm_refuted.
+
+(* Names in the model are lists of trie keys. For an injective key function (the TLV encoding of a component, as the code
+   is now) "satisfies" on keys is "satisfies" on the real names; for a non-injective one (the URI form, as pinned: "seg=5"
+   for the values 05 and 00 05) a Data with another name resolves the Interest. *)
+Theorem injective_trie_keys_real_names : forall (C : Type) (keyf : C -> key), (forall a b, keyf a = keyf b -> a = b) ->
+  forall pid n cbp dig dl m dd, satisfies (mkSint pid (kname C keyf n) cbp dig dl) (kname C keyf m) dd = true ->
+  n = m \/ (cbp = true /\ exists x, m = n ++ x).
+Proof. exact injective_keys_satisfies. Qed.
+Print Assumptions injective_trie_keys_real_names.
+
+Theorem result_sound_refuted_uri_keys : forall (C : Type) (keyf : C -> key) a b, a <> b -> keyf a = keyf b ->
+  forall dd, exists n m, n <> m /\ satisfies (mkSint 0 (kname C keyf n) false None 0) (kname C keyf m) dd = true.
+Proof. exact key_collision_refuted. Qed.
+Print Assumptions result_sound_refuted_uri_keys.
 
 (* non-vacuity: a history with nested names, a duplicate, CanBePrefix, a digest, Data, Nack, a timeout and handlers, whose
    final state is complete; all premises of the theorems above are met by it *)
